@@ -91,6 +91,14 @@ Proof.
   destruct c; try discriminate Hc. eexists s1_cfg, st, ev, sc, st', tr, s, _, _. eauto.
 Qed.
 
+Definition is_setdata (c : call) : bool := match c with CSetData _ => true | _ => false end.
+Example precommit_data_is_requested_in_some_history :
+  exists cfg st ev sc st' tr s h, Reach cfg st /\ step cfg st ev sc = Ok (st', tr) /\ In (s, CSetData h) tr.
+Proof.
+  destruct (has_call_sound s1_cfg s1 is_setdata ltac:(vm_compute; reflexivity)) as (st & ev & sc & st' & tr & s & c & HR & Hs & Hin & Hc).
+  destruct c; try discriminate Hc. exists s1_cfg, st, ev, sc, st', tr, s, bh. auto.
+Qed.
+
 (* the hypotheses of the one-signature theorem (C03) are met by an epoch in which the node does sign: the first eight calls of
    the recorded round S1 (Start, proposal, responses, pre-commits) *)
 Example an_epoch_with_a_signature :
